@@ -120,7 +120,7 @@ EDIT_KINDS = ['add-matching', 'add-nonmatching', 'remove-matching', 'rename-matc
               'touch-bfg', 'touch-source', 'edit-options', 'create-options', 'edit-sub',
               'drop-submodule', 'edit-toolchain', 'add-header', 'remove-header', 'add-data',
               'add-extra', 'noop', 'add-plugin', 'add-plugin-filtered-out', 'remove-plugin',
-              'add-empty-dir', 'fill-empty-dir']
+              'add-empty-dir', 'fill-empty-dir', 'touch-input']
 
 
 def gen_history(rng, project, n):
@@ -129,6 +129,9 @@ def gen_history(rng, project, n):
     hist = [rng.choice(EDIT_KINDS) for _ in range(n)]
     feats = project['feats']
     # directed pairs: features that need a particular (sequence of) edit(s) get it
+    # every history has one edit that leaves the generated files byte-identical (an input of
+    # the regeneration rule gets a newer mtime, nothing else): regeneration must still converge
+    hist.insert(rng.randrange(len(hist) + 1), 'touch-input')
     if feats.get('custfilter'):
         hist[rng.randrange(len(hist))] = 'add-plugin'
         hist.insert(rng.randrange(len(hist) + 1), rng.choice(['remove-plugin', 'add-plugin',
@@ -308,6 +311,17 @@ class Live:
         if kind == 'touch-bfg':
             self.touch('build.bfg')
             return kind, '', False, False
+        if kind == 'touch-input':
+            inputs = ['build.bfg']
+            if self.state['has_options']:
+                inputs.append('options.bfg')
+            if self.state['has_sub']:
+                inputs.append('sub/build.bfg')
+            if self.case['project']['toolchain']:
+                inputs.append('tc.bfg')
+            victim = rng.choice(inputs)
+            self.touch(victim)
+            return kind, victim, False, False
         if kind == 'touch-source':
             self.touch('src/main.c')
             return kind, '', False, False
